@@ -6,7 +6,11 @@ package restful
 // file). This file is injected as an overlay; it is never part of go-restful.
 
 import (
+	"bytes"
+	"compress/gzip"
+	"compress/zlib"
 	"fmt"
+	"io/ioutil"
 )
 
 type verifStop struct{ why string }
@@ -167,4 +171,41 @@ func vByte(s string, i int) int {
 		return 0
 	}
 	return int(s[i])
+}
+
+// verifDecodeBody returns the payload of a response body given as the
+// sequence of writes the recorder received. coding "" means identity.
+// Natively the bytes are really decoded; under the symbolic executor a
+// compressor stream is one opaque token ENC(coding, payload) and decoding
+// succeeds iff the body is exactly one such token of that coding.
+func verifDecodeBody(chunks [][]byte, coding string) ([]byte, bool) {
+	var all []byte
+	for _, c := range chunks {
+		all = append(all, c...)
+	}
+	switch coding {
+	case "":
+		return all, true
+	case "gzip":
+		r, err := gzip.NewReader(bytes.NewReader(all))
+		if err != nil {
+			return nil, false
+		}
+		out, err := ioutil.ReadAll(r)
+		if err != nil {
+			return nil, false
+		}
+		return out, true
+	case "deflate":
+		r, err := zlib.NewReader(bytes.NewReader(all))
+		if err != nil {
+			return nil, false
+		}
+		out, err := ioutil.ReadAll(r)
+		if err != nil {
+			return nil, false
+		}
+		return out, true
+	}
+	return nil, false
 }
